@@ -370,6 +370,7 @@ var corePayloads = []string{
 	"\x00", "\x7f", "\x80", "\xc2\xa0", "\xc2\x85", "\xe2\x80\xa8", "\x0b", "\x0c", "\x1b",
 	"`", "(", ")", "*", "~", "|", "<", ">", "%", "&", "=", "!", "^",
 	"x\";\n}\nserver {", "on;\nload_module x", "\\x3b", "\\073", "%3B", "&#59;",
+	"%20", "%s", "%d;", "%\\\"{", "/a%20b", "%!;", "%q", "\\{", "\\}", "\\#", "\\ ", "\\\n", "$\\", "$;x", "${x};y", "~;", "=;", "@x;",
 }
 
 // candidates(v0) = the payloads alone and combined with the fixture's own (valid) value
@@ -391,6 +392,12 @@ func candidates(v0 string, payloads []string, thorough bool) []struct{ val, plac
 		if v0 != "" {
 			add(v0+p, "append", i)
 			add(p+v0, "prepend", i)
+			// after every white-space / comma / equals separated token of the valid value
+			for k := 1; k < len(v0); k++ {
+				if (v0[k] == ' ' || v0[k] == ',' || v0[k] == ';' || v0[k] == '=' || v0[k] == ':') && v0[k-1] != ' ' {
+					add(v0[:k]+p+v0[k:], "token", i)
+				}
+			}
 			if len(v0) >= 2 {
 				add(v0[:len(v0)-1]+p+v0[len(v0)-1:], "before-last", i)
 				k := len(v0) / 2
@@ -439,6 +446,7 @@ type Obs struct {
 	HFiles   []FileDiff `json:"hfiles,omitempty"`
 	Errors   []string   `json:"errors,omitempty"`
 	Warnings int        `json:"warnings"`
+	Raw      bool       `json:"raw,omitempty"` // the value appears verbatim in the rendering
 	Go       int        `json:"go_verdict"` // 0 same events, 1 arity only, 2 structure differs
 	Panic    string     `json:"panic,omitempty"`
 	Error    string     `json:"error,omitempty"`
@@ -481,11 +489,13 @@ type FieldStat struct {
 	Accepted    int `json:"accepted"`
 	NotAttached int `json:"not_attached"`
 	Identical   int `json:"identical"`
+	Benign      int `json:"benign_value"`
 	Differ      int `json:"differ"`
 	Emitted     int `json:"emitted"`
 	Suspect     int `json:"suspect"`
 	Arity       int `json:"arity"`
 	GenErrors   int `json:"gen_errors"`
+	Raw         int `json:"raw_reach"` // accepted candidates whose value appears verbatim in the rendering (and not in the base rendering)
 }
 
 type Summary struct {
@@ -606,11 +616,20 @@ func (e *env) judge(w *World, base *Render, oi int, l Leaf, val string, hcache m
 		c.Obs.Error = "leaf path vanished"
 		return c, "error"
 	}
+	if why := crdAdmits(kindName(w.Objs[oi]), l.Path, val); why != "" {
+		c.Obs.Reject = why
+		return c, "rejected"
+	}
 	if why := e.validate(w2, oi); why != "" {
 		c.Obs.Reject = why
 		return c, "rejected"
 	}
 	c.Obs.Accepted = true
+	if neutralize(val) == val {
+		// the value contains no byte that is structural for the lexer (only plain printable ASCII and
+		// spaces): it IS harmless text; whatever the generator makes of it is intended structure
+		return c, "benign"
+	}
 	r := e.runWorld(w2)
 	c.Obs.Errors, c.Obs.Warnings, c.Obs.Panic = r.Errors, r.Warnings, r.Panic
 	if r.Panic != "" {
@@ -620,12 +639,27 @@ func (e *env) judge(w *World, base *Render, oi int, l Leaf, val string, hcache m
 		return c, "not-attached"
 	}
 	c.Obs.Attached = true
+	if len(val) > 0 {
+		for _, f := range r.Files {
+			if bytes.Contains(f.Bytes, []byte(val)) {
+				inBase := false
+				for _, b := range base.Files {
+					if b.Name == f.Name && bytes.Contains(b.Bytes, []byte(val)) {
+						inBase = true
+					}
+				}
+				if !inBase {
+					c.Obs.Raw = true
+				}
+			}
+		}
+	}
 	// harmless rendering
 	hr, hv, hk := base, l.Value, "original"
 	if nv := neutralize(val); nv != val && nv != l.Value {
 		cached, ok := hcache[nv]
 		if !ok {
-			if w3 := mutate(w, oi, l.Path, nv); w3 != nil && e.validate(w3, oi) == "" {
+			if w3 := mutate(w, oi, l.Path, nv); w3 != nil && crdAdmits(kindName(w.Objs[oi]), l.Path, nv) == "" && e.validate(w3, oi) == "" {
 				r3 := e.runWorld(w3)
 				if r3.Panic == "" && eqStrings(r3.Attached, base.Attached) {
 					cached = &r3
@@ -638,14 +672,21 @@ func (e *env) judge(w *World, base *Render, oi int, l Leaf, val string, hcache m
 		}
 	}
 	c.Harmless, c.HKind = vh.Bytes(hv), hk
-	if sameFiles(r.Files, hr.Files) {
+	if sameFiles(r.Files, hr.Files) || sameFiles(r.Files, base.Files) {
 		return c, "identical"
 	}
+	// the verdict is the more favourable of the two comparisons (against the neutralized value and
+	// against the fixture's original value): a genuine injection changes the structure against both;
+	// a difference against only one of them is a different branch of the generator (for instance the
+	// neutralized text is not a parsable rate and the directive is dropped)
 	c.Obs.Go = filesVerdict(r.Files, hr.Files)
-	c.Obs.Files = diffAgainst(base.Files, r.Files)
 	if hk == "neutralized" {
+		if vo := filesVerdict(r.Files, base.Files); vo < c.Obs.Go {
+			c.Obs.Go = vo
+		}
 		c.Obs.HFiles = diffAgainst(base.Files, hr.Files)
 	}
+	c.Obs.Files = diffAgainst(base.Files, r.Files)
 	return c, "differ"
 }
 
@@ -714,6 +755,75 @@ func inventory(covered map[string]bool, annCovered map[string]bool) Inventory {
 	return inv
 }
 
+// ---------------------------------------------------------------- validator regexes
+
+// RegexRec carries the verdicts of one REAL validator regular expression on a corpus; Rocq evaluates the
+// hand transcription (Tmpl.Validators) on the same strings.
+type RegexRec struct {
+	Rec    string  `json:"rec"` // "regex"
+	Name   string  `json:"name"`   // key of Tmpl.Validators.validator_regexes
+	Source string  `json:"source"` // the Go variable
+	Cases  [][]int `json:"cases"`  // bytes of the string
+	Match  []bool  `json:"match"`
+}
+
+func regexRecords() []RegexRec {
+	all := map[string]*regexp.Regexp{}
+	for k, v := range validation.VerifC06Regexps() {
+		all[k] = v
+	}
+	for k, v := range configs.VerifC06Regexps() {
+		all[k] = v
+	}
+	for k, v := range k8s.VerifC06Regexps() {
+		all[k] = v
+	}
+	samples := []string{"", "/", "/path", "/path/sub-1", "10", "10k", "8M", "2g", "10r/s", "100r/M", "0r/s", "4 8k", "4  8k", "1h 30m", "30s", "5ms", "1y2M",
+		"hash x", "hash x consistent", "hash ${remote_addr} consistent", "hash  x", "hash x y", "$http_token", "$", "My Realm", "text/plain",
+		"a\\\"b", "a\\$", "a\\", "\\\\", "GrpcService.Name", "x y", "\n", "a\nb", "/a\n"}
+	var corpus []string
+	seen := map[string]bool{}
+	add := func(s string) {
+		if !seen[s] {
+			seen[s] = true
+			corpus = append(corpus, s)
+		}
+	}
+	for _, s := range samples {
+		add(s)
+	}
+	for _, p := range corePayloads {
+		add(p)
+		for _, s := range samples {
+			if len(s) > 0 && len(s) < 16 {
+				add(s + p)
+				add(p + s)
+			}
+		}
+	}
+	var keys []string
+	for k := range all {
+		keys = append(keys, k)
+	}
+	sort.Strings(keys)
+	var out []RegexRec
+	for _, k := range keys {
+		parts := strings.SplitN(k, "@", 2)
+		r := RegexRec{Rec: "regex", Name: parts[0], Source: parts[1]}
+		// a deterministic slice of the corpus: every 16th string (offset by the key) and all short ones
+		off := len(k) % 48
+		for i, s := range corpus {
+			if i%48 != off && len(s) > 2 {
+				continue
+			}
+			r.Cases = append(r.Cases, vh.Bytes(s))
+			r.Match = append(r.Match, all[k].MatchString(s))
+		}
+		out = append(out, r)
+	}
+	return out
+}
+
 // ---------------------------------------------------------------- main
 
 func baseRecord(id int, fx string, w *World, r *Render, e *env) BaseRec {
@@ -743,7 +853,7 @@ type jobResult struct {
 	annCovered map[string]bool
 }
 
-func runJob(e *env, fi int, fx Fixture, plus bool, rng *vh.Rng, thorough bool, budget int) jobResult {
+func runJob(e *env, fi int, fx Fixture, plus bool, rng *vh.Rng, thorough bool, budget int, chunk, nchunks int) jobResult {
 	res := jobResult{covered: map[string]bool{}, annCovered: map[string]bool{}}
 	w := fx.Build(plus)
 	base := e.runWorld(w)
@@ -751,10 +861,17 @@ func runJob(e *env, fi int, fx Fixture, plus bool, rng *vh.Rng, thorough bool, b
 	sum := Summary{Rec: "summary", Fixture: fx.Name, Plus: plus, Fields: map[string]*FieldStat{}}
 	dedupe := map[string]bool{}
 	perFieldSuspects := map[string]int{}
+	fieldInstances := map[string]int{}
 	for oi, o := range w.Objs {
 		leaves := objLeaves(o, w.ExtraAnn)
 		for _, l := range leaves {
 			nleaves++
+			if nleaves%nchunks != chunk {
+				if !thorough {
+					fieldInstances[l.Field]++ // instance numbering is global over the fixture, not per chunk
+				}
+				continue
+			}
 			res.covered[l.Field] = true
 			if m := annValRe.FindStringSubmatch(l.Path); m != nil {
 				res.annCovered[m[1]] = true
@@ -766,13 +883,22 @@ func runJob(e *env, fi int, fx Fixture, plus bool, rng *vh.Rng, thorough bool, b
 			}
 			payloads := corePayloads
 			if !thorough {
-				// quick: the first 44 payloads (single bytes and the classic combinations) always, plus a
-				// seed-dependent quarter of the rest
+				// quick: the first instance of a field in a fixture gets the first 40 payloads (single bytes and the
+				// classic combinations) plus a seed-dependent fifth of the rest; further instances of the same field
+				// (the same Go type reached through another path index) get a seed-dependent sample of 7
 				lr := rng.Fork(uint64(fi*100000 + oi*1000 + nleaves))
-				payloads = append([]string(nil), corePayloads[:44]...)
-				for _, p := range corePayloads[44:] {
-					if lr.Chance(1, 4) {
-						payloads = append(payloads, p)
+				fieldInstances[l.Field]++
+				if fieldInstances[l.Field] == 1 {
+					payloads = append([]string(nil), corePayloads[:40]...)
+					for _, p := range corePayloads[40:] {
+						if lr.Chance(1, 5) {
+							payloads = append(payloads, p)
+						}
+					}
+				} else {
+					payloads = nil
+					for k := 0; k < 7; k++ {
+						payloads = append(payloads, corePayloads[lr.Intn(len(corePayloads))])
 					}
 				}
 			}
@@ -781,12 +907,18 @@ func runJob(e *env, fi int, fx Fixture, plus bool, rng *vh.Rng, thorough bool, b
 				st.Candidates++
 				c, class := e.judge(w, &base, oi, l, cd.val, hcache)
 				c.Fixture, c.Placement, c.PayloadID = fx.Name, cd.placement, cd.pid
+				if c.Obs.Raw && class == "differ" {
+					st.Raw++
+				}
 				switch class {
 				case "rejected":
 					st.Rejected++
 				case "not-attached":
 					st.Accepted++
 					st.NotAttached++
+				case "benign":
+					st.Accepted++
+					st.Benign++
 				case "identical":
 					st.Accepted++
 					st.Identical++
@@ -824,7 +956,13 @@ func runJob(e *env, fi int, fx Fixture, plus bool, rng *vh.Rng, thorough bool, b
 	}
 	res.base = baseRecord(0, fx.Name, w, &base, e)
 	res.base.Leaves = nleaves
-	if !thorough && len(res.normal) > budget {
+	for k := 0; k < 4 && chunk == 0; k++ {
+		if again := e.runWorld(fx.Build(plus)); !sameFiles(again.Files, base.Files) {
+			res.base.Errors = append(res.base.Errors, "fixture renders nondeterministically (map iteration order?)")
+			break
+		}
+	}
+	if false {
 		// a seed-dependent sample, but at least one case per field
 		pr := rng.Fork(uint64(7000 + fi*2 + b2i(plus)))
 		byField := map[string]bool{}
@@ -877,12 +1015,24 @@ func main() {
 	rng := vh.NewRng(a.Seed)
 	thorough := a.Tier == "thorough"
 	type job struct {
-		fi   int
-		plus bool
+		fi     int
+		plus   bool
+		chunk  int
+		chunks int
 	}
 	var jobs []job
 	for fi := range fixtures {
-		jobs = append(jobs, job{fi, false}, job{fi, true})
+		n := 1
+		if strings.HasPrefix(fixtures[fi].Name, "vs-rich") {
+			n = 12
+		} else if strings.HasPrefix(fixtures[fi].Name, "vs-") || strings.HasPrefix(fixtures[fi].Name, "ing-a") || fixtures[fi].Name == "mergeable" {
+			n = 3
+		}
+		for _, plus := range []bool{false, true} {
+			for c := 0; c < n; c++ {
+				jobs = append(jobs, job{fi, plus, c, n})
+			}
+		}
 	}
 	results := make([]jobResult, len(jobs))
 	var wg sync.WaitGroup
@@ -893,35 +1043,111 @@ func main() {
 			defer wg.Done()
 			sem <- struct{}{}
 			defer func() { <-sem }()
-			results[k] = runJob(envs[j.plus], j.fi, fixtures[j.fi], j.plus, rng, thorough, a.N)
+			results[k] = runJob(envs[j.plus], j.fi, fixtures[j.fi], j.plus, rng, thorough, a.N, j.chunk, j.chunks)
 		}(k, j)
 	}
 	wg.Wait()
 	covered, annCovered := map[string]bool{}, map[string]bool{}
-	id := 0
-	for k := range results {
-		r := &results[k]
-		for f := range r.covered {
-			covered[f] = true
+	id, baseID := 0, 0
+	for k := 0; k < len(results); {
+		j := jobs[k]
+		// merge the chunks of one (fixture, edition)
+		first := &results[k]
+		sum := Summary{Rec: "summary", Fixture: fixtures[j.fi].Name, Plus: j.plus, Fields: map[string]*FieldStat{}}
+		var errs, suspects, normal []Case
+		dedupe := map[string]bool{}
+		perField := map[string]int{}
+		for c := 0; c < j.chunks; c++ {
+			r := &results[k+c]
+			for f := range r.covered {
+				covered[f] = true
+			}
+			for f := range r.annCovered {
+				annCovered[f] = true
+			}
+			for f, st := range r.sum.Fields {
+				t := sum.Fields[f]
+				if t == nil {
+					t = &FieldStat{}
+					sum.Fields[f] = t
+				}
+				t.Candidates += st.Candidates
+				t.Rejected += st.Rejected
+				t.Accepted += st.Accepted
+				t.NotAttached += st.NotAttached
+				t.Identical += st.Identical
+				t.Benign += st.Benign
+				t.Differ += st.Differ
+				t.Suspect += st.Suspect
+				t.Arity += st.Arity
+				t.GenErrors += st.GenErrors
+				t.Raw += st.Raw
+			}
+			errs = append(errs, r.errs...)
+			for _, cs := range r.suspects {
+				hk := cs.Field + "|" + fmt.Sprint(cs.Obs.Files) + "|" + fmt.Sprint(cs.Obs.HFiles)
+				if dedupe[hk] || (!thorough && perField[cs.Field] >= 6) {
+					continue
+				}
+				dedupe[hk] = true
+				perField[cs.Field]++
+				suspects = append(suspects, cs)
+			}
+			for _, cs := range r.normal {
+				hk := cs.Field + "|" + fmt.Sprint(cs.Obs.Files) + "|" + fmt.Sprint(cs.Obs.HFiles)
+				if dedupe[hk] {
+					continue
+				}
+				dedupe[hk] = true
+				normal = append(normal, cs)
+			}
 		}
-		for f := range r.annCovered {
-			annCovered[f] = true
+		if !thorough && len(normal) > a.N {
+			// a seed-dependent sample, but at least one case per field
+			pr := rng.Fork(uint64(7000 + j.fi*2 + b2i(j.plus)))
+			byField := map[string]bool{}
+			var keep, rest []Case
+			for _, c := range normal {
+				if !byField[c.Field] {
+					byField[c.Field] = true
+					keep = append(keep, c)
+				} else {
+					rest = append(rest, c)
+				}
+			}
+			for len(keep) < a.N && len(rest) > 0 {
+				i := pr.Intn(len(rest))
+				keep = append(keep, rest[i])
+				rest[i] = rest[len(rest)-1]
+				rest = rest[:len(rest)-1]
+			}
+			normal = keep
 		}
-		r.base.BaseID = k
-		out.Emit(r.base)
-		for _, list := range [][]Case{r.errs, r.suspects, r.normal} {
+		first.base.BaseID = baseID
+		out.Emit(first.base)
+		for _, list := range [][]Case{errs, suspects, normal} {
 			for _, c := range list {
-				c.ID, c.BaseID = id, k
+				c.ID, c.BaseID = id, baseID
 				id++
-				if st := r.sum.Fields[c.Field]; st != nil {
+				if st := sum.Fields[c.Field]; st != nil {
 					st.Emitted++
 				}
 				out.Emit(c)
 			}
 		}
-		out.Emit(r.sum)
+		out.Emit(sum)
+		baseID++
+		k += j.chunks
+	}
+	crdOnce.Do(loadCRDs)
+	if crdErr != nil {
+		fmt.Fprintln(os.Stderr, "crd schemas:", crdErr)
+		os.Exit(2)
 	}
 	out.Emit(inventory(covered, annCovered))
+	for _, r := range regexRecords() {
+		out.Emit(r)
+	}
 }
 
 func b2i(b bool) int {
